@@ -14,6 +14,31 @@ BOUNDS = "1-D len 0..6 x all index subsets; rank<=3 x every axis x all subsets; 
 _fail = []
 
 
+def agree(case, impl, model):
+    if case.startswith("trimz@"):
+        # float pools: leading and trailing zeros (of either sign) are removed and nothing else — a NaN or an infinity
+        # at either end stays; the harness answers with the bounds of the slice it got back
+        import floatsem, struct
+        t = case.split(" ")
+        single = t[0].endswith("f32p")
+        labs = [int(x) for x in t[1].split(":", 1)[1].split(",") if x]
+        def zero(k):
+            v = floatsem.POOL[k]
+            if single:
+                try:
+                    v = struct.unpack("f", struct.pack("f", v))[0]
+                except OverflowError:
+                    v = float("inf")
+            return v == 0.0
+        i, j = 0, len(labs)
+        while i < j and zero(labs[i]):
+            i += 1
+        while j > i and zero(labs[j - 1]):
+            j -= 1
+        return impl == ("list(empty)" if i >= j else f"list(z({i});z({j}))")
+    return None
+
+
 def gen_rounds(seed, tier, run):
     rng = random.Random(seed)
     del _fail[:]
@@ -160,6 +185,14 @@ def gen_rounds(seed, tier, run):
             if L == 6 and rng.random() < 0.7:
                 continue
             out.append(f"trim_zeros {arr([L], v)}")
+    # trim_zeros on float arrays: NaN, infinities and signed zeros at the ends (seeded change C13n)
+    for ty in ("f64p", "f32p"):
+        for _ in range(60):
+            n_ = rng.randint(0, 8)
+            core = [rng.choice([0, 1, 0, 13, 11, 12, 2, 5, 10, 1, 0]) for _ in range(n_)]
+            out.append(f"trimz@{ty} {arr([len(core)], core)}")
+        for fixed in ([13, 2, 3, 0], [0, 2, 3, 13], [0, 13, 2, 0, 13, 0, 0], [13, 0, 13], [1, 13, 1], [11, 0], [0, 12], [1, 0, 1], [13]):
+            out.append(f"trimz@{ty} {arr([len(fixed)], fixed)}")
     out = retype(out, rng, set(['delete', 'insert', 'insert_entry', 'repeat', 'append', 'concatenate']))          # other element types for the generic operations
     impl, model = run(out)
     # round trip: delete what was just inserted
